@@ -1378,6 +1378,31 @@ func (c *Ctx) lockCovers(rule string, fi *FuncInfo, clause string) int {
 						writes[l.Pos()] = &wr{l.Pos(), nm, st}
 					}
 				}
+				// a function literal written in place (an argument of a call made here) runs here
+				if !closureDef[m] {
+					ast.Inspect(m, func(q ast.Node) bool {
+						lit, isLit := q.(*ast.FuncLit)
+						if !isLit {
+							return true
+						}
+						ast.Inspect(lit.Body, func(w ast.Node) bool {
+							var ls []ast.Expr
+							switch x := w.(type) {
+							case *ast.AssignStmt:
+								ls = x.Lhs
+							case *ast.IncDecStmt:
+								ls = []ast.Expr{x.X}
+							}
+							for _, l := range ls {
+								if nm, isSh := shared(l); isSh {
+									writes[l.Pos()] = &wr{l.Pos(), nm, st}
+								}
+							}
+							return true
+						})
+						return false
+					})
+				}
 				if !closureDef[m] && len(closureWrites) > 0 {
 					ast.Inspect(m, func(q ast.Node) bool {
 						if _, isLit := q.(*ast.FuncLit); isLit {
